@@ -106,7 +106,8 @@ def one(job):
         rc, outp = cli.maximum_color([*args, d / "in.ttf"], d)
         fp = d / "b" / "Font.ttf"
         if rc != 0 or not fp.exists():
-            return {"kind": kind, "seed": seed, "opts": opts, "rc": rc, "tail": outp[-500:]}
+            return {"kind": kind, "seed": seed, "opts": opts, "rc": rc, "tail": outp[-500:],
+                    "too_big": bool(opts.get("bitmaps")) and "Bitmap is too big for CBDT" in outp}
         return {"kind": kind, "seed": seed, "opts": opts, "rc": 0, "in": data, "out": fp.read_bytes()}
     finally:
         shutil.rmtree(d, ignore_errors=True)
@@ -238,6 +239,10 @@ def suite(ctx, res, n):
         res.count(key=("mc", r["kind"], r["seed"]), nontrivial=True)
         if "skip" in r:
             res.stat("skip:" + r["skip"])
+            continue
+        if r["rc"] != 0 and r.get("too_big"):
+            # a glyph wider than 255 px at the default resolution cannot be stored in CBDT: rejecting it is what C14 demands
+            res.stat("rejected:too-big-for-cbdt")
             continue
         if r["rc"] != 0:
             res.add_cex("maximum_color failed on a valid input font", {"kind": r["kind"], "seed": r["seed"], "opts": r["opts"], "tail": r["tail"]},
